@@ -256,7 +256,15 @@ def reachable_graphs(root, graphs):
     return out
 
 
-def run_sort(entry, root):
+def top_level(graphs):
+    nested = set()
+    for g in graphs:
+        for s_ in reachable_graphs(g, graphs)[1:]:
+            nested.add(id(s_))
+    return [g for g in graphs if id(g) not in nested]
+
+
+def run_sort(entry, root, others=()):
     import onnx_ir as ir
 
     if entry % 3 == 0:
@@ -267,7 +275,9 @@ def run_sort(entry, root):
     else:
         from onnx_ir.passes.common import TopologicalSortPass
 
-        model = ir.Model(root, ir_version=10)
+        # the other top-level graphs of the case become the bodies of model-local functions: the pass owes them the same
+        fns = [ir.Function("local", f"f{i}", graph=g, attributes=[]) for i, g in enumerate(others)]
+        model = ir.Model(root, ir_version=10, functions=fns)
         TopologicalSortPass()(model)
 
 
@@ -279,15 +289,31 @@ def execute(case):
         return dict(failures=[], nontrivial=False, classes=["malformed"])
     root = graphs[0]
     scope = reachable_graphs(root, graphs)
+    entry = case.get("entry", 0)
+    others, others2 = [], []
+    if entry % 3 == 2:
+        # TopologicalSortPass also owes an order to the function bodies: a structural copy of the same case becomes the
+        # body of a model-local function (and must end up in the same order as the main graph's copy)
+        try:
+            graphs3, _, _ = build(case)
+            graphs4, _, _ = build(case)
+        except (Malformed, KeyError, IndexError, TypeError, ValueError):
+            return dict(failures=[], nontrivial=False, classes=["malformed"])
+        for g in graphs3 + graphs4:
+            g.name = "fn_" + g.name
+        others, others2 = [graphs3[0]], [graphs4[0]]
+        graphs = graphs + graphs3
+        graphs2 = graphs2 + graphs4
+        scope = scope + reachable_graphs(graphs3[0], graphs3)
+    multi_root = bool(others)
     cyc = has_cycle(scope)
     pre_bad = order_violations(scope)
     before = {g.name: [n.name for n in g] for g in graphs}
     before_ids = {g.name: [id(n) for n in g] for g in graphs}
     fails = []
-    entry = case.get("entry", 0)
     exc = None
     try:
-        run_sort(entry, root)
+        run_sort(entry, root, others)
     except Exception as e:
         exc = e
     after = {g.name: [n.name for n in g] for g in graphs}
@@ -296,7 +322,7 @@ def execute(case):
     if cyc:
         if not isinstance(exc, ValueError):
             fails.append((f"cycle-not-rejected/{ename}", f"dependencies contain a cycle but sort {'returned' if exc is None else 'raised ' + type(exc).__name__}; before={before} after={after}"[:500]))
-        if after_ids != before_ids:
+        if after_ids != before_ids and not multi_root:  # (the pass sorts main graph and functions one after the other)
             fails.append((f"cycle-order-changed/{ename}", f"cycle: order changed {before} -> {after}"[:500]))
     else:
         if exc is not None:
@@ -316,7 +342,7 @@ def execute(case):
                     fails.append((f"foreign-graph-changed/{ename}", f"graph {g.name} not reachable from root changed"))
             # determinism: second structurally identical build
             try:
-                run_sort(entry, graphs2[0])
+                run_sort(entry, graphs2[0], others2)
                 after2 = {g.name: [n.name for n in g] for g in graphs2}
                 if after2 != after:
                     fails.append((f"nondeterministic/{ename}", f"two identical builds sorted differently: {after} vs {after2}"[:500]))
@@ -340,6 +366,8 @@ def execute(case):
         classes.append("already_sorted")
     if len(scope) >= 3:
         classes.append(">=3 graphs")
+    if multi_root:
+        classes.append("pass_with_functions")
     return dict(failures=fails, nontrivial=nontrivial, classes=classes)
 
 
